@@ -11,6 +11,7 @@ import PasfmtModel.Proofs.SpacingLe
 import PasfmtModel.Proofs.WrapStageProps
 import PasfmtModel.Proofs.PipelineFullProps
 import PasfmtModel.Proofs.CanonStage
+import PasfmtModel.Proofs.CanonPremise
 import PasfmtModel.Proofs.ReconBytes
 
 namespace Pasfmt.C08
@@ -453,5 +454,28 @@ theorem C08_bytes_full_checked (cfg : Config) (alnum : Bytes → Bool) (s : Byte
         refine ⟨ftz, hfin, by rw [formatFull_eq_finalState, hfin]; rfl, hcanon, fun hc => ?_⟩
         have hcs := canonState_of_content cfg ftz hcanon hc
         exact ⟨hcs, bytes_canonical cfg ftz hcs⟩
+
+/-- **before the wrapper stage at most one space stands before every token that is not free, for every input**:
+    in the state `preWrap` hands to the wrapper stage, a token has at most one space before it or its position is free
+    (`freeAtB`: it follows a line comment sharing its line with code, and its own spacing rule keeps the input's
+    spaces).  `TokenSpacing` writes 0 or 1 everywhere else; the later rules keep the spaces or write 0. -/
+theorem C08_pre_stage_spaces (O : Oracles) (raw : List RawTok) (j : Nat) (t : FTok)
+    (ht : (preWrap O raw).2.2[j]? = some t) :
+    t.fmt.sp ≤ 1 ∨ freeAtB (preWrap O raw).2.2 j = true :=
+  CanonPremise.preWrap_sp O raw j t ht
+
+/-- the reduced premises (`canonPremisesB'`: "at most one space before" asked at the free positions only) imply the
+    premises of `C08_format_full_checked` -/
+theorem C08_premises_reduced (cfg : Config) (alnum : Bytes → Bool) (s : Bytes)
+    (h : canonPremisesB' cfg alnum s = true) : canonPremisesB cfg alnum s = true :=
+  CanonPremise.canonPremisesB_of_prime cfg alnum s h
+
+/-- **C08 for the closed model of the whole formatter, with the premise "at most one space before" proved** except at
+    the free positions: `C08_format_full_checked` from `canonPremisesB'` (Model/LayoutCheck.lean, executable) -/
+theorem C08_format_full_checked2 (cfg : Config) (alnum : Bytes → Bool) (s : Bytes)
+    (h : canonPremisesB' cfg alnum s = true) :
+    ∃ ftz, formatFull cfg alnum s = some (reconstruct cfg.settings ftz) ∧
+      ∀ t ∈ ftz, t.fmt.ignored = false → canonFmt t.fmt = true :=
+  C08_format_full_checked cfg alnum s (C08_premises_reduced cfg alnum s h)
 
 end Pasfmt.C08
